@@ -333,12 +333,33 @@ pub fn history_oracles(case: &Case, imp: &[String]) -> Vec<serde_json::Value> {
     let mut fails = vec![];
     let mut last_msk: std::collections::HashMap<String, String> = Default::default();
     let mut last_usk: std::collections::HashMap<String, String> = Default::default();
+    // public values per right as last published from the master key, and the values that were published once and have
+    // since been replaced or withdrawn: none of those may ever be published again (C16: every rekey publishes a value never
+    // published before; C06: a withdrawn right stays withdrawn)
+    let mut last_pub: std::collections::BTreeMap<String, String> = Default::default();
+    let mut retired: std::collections::HashSet<String> = Default::default();
+    let mut pub_valid = true;
+    fn parse_mpk(d: &str) -> Option<std::collections::BTreeMap<String, String>> {
+        let i = d.find(" R{")?;
+        let body = &d[i + 3..];
+        let j = body.find('}')?;
+        let mut out = std::collections::BTreeMap::new();
+        for ent in body[..j].split(';') {
+            if let Some((r, v)) = ent.split_once(':') {
+                out.insert(r.to_string(), v[v.find('#').unwrap_or(0)..].to_string());
+            }
+        }
+        Some(out)
+    }
     for (i, (l, o)) in case.lines.iter().zip(imp.iter()).enumerate() {
         let t: Vec<&str> = l.split(' ').collect();
         let op = t[0];
         if op == "reset" {
             last_msk.clear();
             last_usk.clear();
+            last_pub.clear();
+            retired.clear();
+            pub_valid = true;
             continue;
         }
         if op == "copy" && t.len() == 3 {
@@ -355,6 +376,26 @@ pub fn history_oracles(case: &Case, imp: &[String]) -> Vec<serde_json::Value> {
         // the part of the output after the status (and the error kind)
         let payload = if is_err { o.splitn(3, ' ').nth(2).unwrap_or("") } else if is_ok { &o[3..] } else { "" };
         let (first, second) = match payload.split_once(" | ") { Some((a, b)) => (a, b), None => (payload, "") };
+        // a master key put back to an earlier state legitimately publishes earlier values again
+        if matches!(op, "rollback" | "copy") {
+            pub_valid = false;
+        }
+        if pub_valid && is_ok && t.len() > 1 && t[1] == "M0" {
+            let mpk_part = if matches!(op, "setup" | "update" | "rekey" | "prune") && second.starts_with("mpk ") { Some(second) } else if op == "mpk" && first.starts_with("mpk ") { Some(first) } else { None };
+            if let Some(cur) = mpk_part.and_then(parse_mpk) {
+                for (r, v) in &cur {
+                    if retired.contains(v) {
+                        fail("republished-public-value", format!("{op} publishes for right {r} the value {v}, which had been published before and replaced or withdrawn since"));
+                    }
+                }
+                for (r, v) in &last_pub {
+                    if cur.get(r) != Some(v) {
+                        retired.insert(v.clone());
+                    }
+                }
+                last_pub = cur;
+            }
+        }
         match op {
             "setup" | "update" | "rekey" | "prune" | "keygen" | "refresh" | "dump" if first.starts_with("msk ") => {
                 let m = t[1].to_string();
